@@ -254,7 +254,8 @@ class Runner:
 
     def op_set(self, op):
         w, ctx, v = self.w, self.ctx, op["ver"]
-        rc, so, se = self.atlas("migrate", "set", v, *self.U)
+        noarg = v is None
+        rc, so, se = self.atlas("migrate", "set", *([] if noarg else [v]), *self.U)
         self.trace[-1].update(rc=rc, msg=msg_class(rc, so, se), stderr=se.strip()[:300])
         if rc == 124:
             self.inconcl("watchdog")
@@ -262,6 +263,29 @@ class Runner:
             self.viol("set|panic", "`migrate set` panics: " + se.strip()[:300], {"stderr": se[:3000]})
         if rc != 0:
             ctx.count("msg-class:set:" + msg_class(rc, so, se))
+        if noarg:
+            # `migrate set` WITHOUT a version ("atlas migrate set --env local"): sync the table with the directory, i.e.
+            # everything up to the LAST FILE of the directory (checkpoint or not) is applied; only allowed on a
+            # database that has revisions ("we allow only removing or syncing revisions"); with an empty directory
+            # nothing is applied any more and the table is purged.
+            last_file = max(w.files) if w.files else None
+            ctx.count("op:set-without-version:%s" % ("no-revisions" if not w.revs else "empty-directory" if last_file is None else
+                                                     "last-file-is-checkpoint" if w.files[last_file]["ck"] else "last-file-is-regular"))
+            if w.files and all(f["ck"] for f in w.files.values()):
+                ctx.count("op:set-without-version:checkpoint-only-directory")
+            if not w.revs:
+                if rc == 0:
+                    self.viol("set|outcome|model=refused|real=done", "`migrate set` without a version on a database without revisions succeeds: %s" % so.strip()[:300])
+                return
+            if last_file is None:
+                if rc != 0:
+                    self.viol("set|outcome|model=done|real=refused", "`migrate set` (no version, empty directory) fails: rc=%d %s" % (rc, se.strip()[:300]))
+                revs, _, _ = self.observe()
+                if revs:
+                    self.viol("set|no-version|empty-directory-not-purged", "`migrate set` without a version and with an empty directory leaves revisions %r" % [r["version"] for r in revs])
+                w.revs = {}
+                return
+            v = last_file  # from here on: exactly `migrate set <last file of the directory>`
         if v not in w.files:
             # the only possible answer is a refusal (any wording); that the table is untouched is checked by check_state
             ctx.count("op:set-unknown-version")
@@ -422,6 +446,19 @@ def main():
                       ("inner-partial-orders", [ap("linear"), ooo, ap("non-linear"), fix, ap("linear"), ap("linear-skip"), ap("non-linear"), ap("non-linear")]),
                       ("inner-partial-count", [ap("linear"), ooo, ap("non-linear"), top, fix, ap("non-linear", n=1), ap("non-linear")])):
         cases.append({"seq": name, "len": len(ops), "predirty": False, "init": init2, "ops": ops, "scripted": True})
+    # scripted: `migrate set` without a version; last file of the directory is a checkpoint (database created from it /
+    # added on top of an applied history / the only file), a regular file, no revisions yet, and an emptied directory
+    setn = {"op": "set", "ver": None}
+
+    def fl(ver, ck=False):
+        return {"op": "add", "ver": ver, "ck": ck, "inserts": 1, "fail_at": 0}
+    for name, init, ops in (("set-noarg-created-from-last-checkpoint", [fl("100"), fl("110"), fl("120", True)], [ap("linear"), setn, ap("linear")]),
+                            ("set-noarg-checkpoint-only", [fl("100", True)], [ap("linear"), setn, ap("linear")]),
+                            ("set-noarg-last-regular", [fl("100"), fl("110"), fl("120")], [ap("linear", n=1), setn, ap("linear")]),
+                            ("set-noarg-no-revisions", [fl("100"), fl("110", True), fl("120")], [setn, ap("linear"), setn]),
+                            ("set-noarg-checkpoint-on-top", [fl("100"), fl("110")], [ap("linear"), fl("120", True), setn]),
+                            ("set-noarg-empty-directory", [fl("100")], [ap("linear"), {"op": "delete", "ver": "100"}, setn])):
+        cases.append({"seq": name, "len": len(ops), "predirty": False, "init": init, "ops": ops, "scripted": True})
 
     def work(cs):
         r = Runner(ctx, cs)
